@@ -535,6 +535,14 @@ def ua_leak(ctx):
             n += 1
             key = '%s|%s' % (short(fn.root or fn.name), name.split('::')[-1])
             why = LEAK_AUDITED.get((fn.root or fn.name, name))
+            if not why and name == 'alloc::boxed::Box::into_raw' and not fn.is_closure and fn.name.startswith('desync::Desync::'):
+                # another constructor of Desync: the raw pointer goes straight into the `data` field of the Desync it returns (and nowhere else)
+                for b2 in fn.blocks:
+                    for s2 in b2['stmts']:
+                        if s2['k'] == 'assign' and s2['rv']['k'] == 'agg' and s2['rv'].get('adt') == 'desync::Desync' and not s2['pl']['p'] and s2['pl']['l'] == 0:
+                            comps = [render(fn.expr_of_operand(o_)) for o_ in s2['rv'].get('ops', [])]
+                            if sum(1 for c_ in comps if c_.startswith('into_raw(')) == 1:
+                                why = 'the payload box of a constructor (`%s` builds the Desync it returns around it); freed exactly once in Desync::drop (UA-free)' % short(fn.name)
             if why:
                 out.append(ok('UA-leak', key, 'audited: ' + why, loc=fn.loc(bb), fn=fn.name))
             else:
